@@ -118,6 +118,14 @@ func Check(c Case, ev *evid.Collector, cobra CobraFn) (*evid.Violation, *Infra) 
 		name, st := bindingOf(c, o.Script, o.Stmt)
 		where := "script " + scriptName(c, o.Script) + fmt.Sprintf(" statement %d", o.Stmt)
 		switch o.Where {
+		case "throttle":
+			sig := "throttle-slot-leaked-by-script"
+			if strings.HasPrefix(o.Detail, "appeared") {
+				sig = "throttle-slot-count-wrong"
+			}
+			vd.fail(evid.V(sig,
+				"%s mode: the parallelism throttle shared by all scripts lost a slot while %s (%s) was executing - nothing was running at the statement boundary, so every slot must be free; every later throttled call (image.copy, image.config, image.exportTar, image.importTar) of this and of every later script now blocks until its timeout (forever without one)\n  %s\nstatement:\n%s",
+				c.Mode, where, name, o.Detail, indent(stmtText(c, o.Script, o.Stmt))))
 		case "registry":
 			regOff++
 			vd.fail(evid.V("dryrun-write-by-"+name,
@@ -144,6 +152,14 @@ func Check(c Case, ev *evid.Collector, cobra CobraFn) (*evid.Violation, *Infra) 
 				"dry run (%s mode): files of OCI layout %q were created / modified / removed while %s (%s) was executing:\n%sstatement:\n%s",
 				c.Mode, o.Layout, where, name, o.Detail, indent(stmtText(c, o.Script, o.Stmt))))
 		}
+	}
+	if obs.ThrottleMax > 0 && obs.ThrottleFree != obs.ThrottleMax {
+		sig := "throttle-slot-leaked-by-script"
+		if obs.ThrottleFree > obs.ThrottleMax {
+			sig = "throttle-slot-count-wrong"
+		}
+		vd.fail(evid.V(sig, "cobra mode: after `regbot once` returned (no script is running any more) the drain test on its parallelism throttle (limit %d) let %d TryAcquire succeed: a script leaked a slot, later throttled calls of every script block until their timeout",
+			obs.ThrottleMax, obs.ThrottleFree))
 	}
 	if regBefore != regAfter && regOff == 0 {
 		return nil, &Infra{fmt.Errorf("model registry state changed without a state-changing request:\n%s", firstDiffLine(regBefore, regAfter))}
@@ -234,8 +250,31 @@ func checkMarkers(c Case, obs *Obs, vd *verdict) {
 		return
 	}
 	anyFailedBefore := false
+	sequential := c.Mode != "cobra" || c.Parallel <= 0
 	for si, s := range c.Scripts {
 		so := obs.Scripts[si]
+		if so.TimedOut() {
+			// Scripts run one after another here, so whenever a binding asks for a
+			// throttle slot every slot must be free (Acquire then returns at once
+			// without looking at the context): waiting for one until the deadline
+			// means an earlier call never gave its slot back. The verdict does not
+			// depend on the clock, the deadline only ends the wait.
+			if sequential && so.BlockedOnThrottle() {
+				sig := "script-blocked-after-own-earlier-call"
+				if si > 0 {
+					sig = "script-blocked-by-earlier-script"
+				}
+				vd.fail(evid.V(sig, "script %s waited for a slot of the parallelism throttle until its timeout although no other script was running (scripts run one after another in this configuration): an earlier call kept its slot; err=%q; last messages: %q",
+					scriptName(c, si), so.Err, tail(so.Msgs, 4)))
+			} else {
+				// a deadline that fires for any other reason is wall clock: not judged
+				vd.labels = append(vd.labels, "outcome:script-timeout-fired-not-judged")
+			}
+			if so.Failed {
+				anyFailedBefore = true
+			}
+			continue
+		}
 		if so.Panic != "" {
 			vd.fail(evid.V("panic-escaped-runscript", "a Go panic left Sandbox.RunScript of script %s: %s", scriptName(c, si), so.Panic))
 			anyFailedBefore = true
@@ -340,6 +379,9 @@ var addrRE = regexp.MustCompile(`0x[0-9a-f]+`)
 func compareRuns(c Case, dry, nor *Obs, vd *verdict) {
 	for si := range c.Scripts {
 		a, b := dry.Scripts[si], nor.Scripts[si]
+		if a.TimedOut() || b.TimedOut() {
+			continue // wall clock (checkMarkers has judged a wait for the throttle)
+		}
 		k := -1 // statement in which the first difference lies
 		diffAt := -1
 		for i := 0; i < len(a.Msgs) || i < len(b.Msgs); i++ {
